@@ -233,6 +233,17 @@ class FnAutomaton:
                     self.eng.write_place(st, dest, EnumV("Result", "Ok", 0, {0: Agg("token:guard", {})}))
                     fr.bb = ret_bb
                     work.append((st, action, held, needs, race, False))
+                elif re.search(r"(^|::)mem::drop$|^drop$", norm):
+                    v = self.eng.operand(st, argops[0])
+                    self.eng.write_place(st, dest, Unit())
+                    fr.bb = ret_bb
+                    if isinstance(v, Agg) and v.ty == "token:guard":
+                        # explicit drop of the mutex guard = unlock
+                        if held is None:
+                            needs = True
+                        work.append((st, "unlock", False, needs, race, False))
+                    else:
+                        work.append((st, action, held, needs, race, False))
                 elif re.search(r"Condvar::notify_(one|all)$", norm):
                     self.eng.write_place(st, dest, Unit())
                     fr.bb = ret_bb
